@@ -4,5 +4,5 @@ c=$1; shift
 wt=/tmp/atc_$$
 git -C /repo worktree add -q --detach $wt $c || exit 2
 cp /repo/Cargo.lock $wt/ 2>/dev/null
-for p in "$@"; do UMYA_REPO=$wt /verif/vcheck $p 2>&1 | grep -E "violated:|^C[0-9]+ tier|KNOWN|floor" ; done
+for p in "$@"; do UMYA_KEEP_EVIDENCE=1 UMYA_REPO=$wt /verif/vcheck $p 2>&1 | grep -E "violated:|^C[0-9]+ tier|KNOWN|floor" ; done
 git -C /repo worktree remove --force $wt; git -C /repo worktree prune
